@@ -126,6 +126,9 @@ def classify(v: dict) -> str | None:
 
 
 SPECIAL = [
+	'def outer() -> None:\n\tclass Local:\n\t\tdef plain(a: int) -> int:\n\t\t\treturn a\n\t\tdef meth(self) -> None:\n\t\t\tpass\n\t\t@classmethod\n\t\tdef make(cls) -> None:\n\t\t\tpass\n',
+	'class A:\n\tdef __init__(self) -> None:\n\t\tself.a = B()\n\t\tself.a.b = 1\n\t\tself.a.b.c = 2\n\t\tother.x = 3\n\tdef m(self) -> None:\n\t\tself.a = 1\n\t\tself.a.b = 2\n',
+	'x = a / b * c % d\n', 'x = a - b + c - d\n', 'x = a * b / c * d\n',
 	'x = a if b else c if d else e\n', 'x = not a == b\n', 'x = a < b < c\n', 'x = a | b & c ^ d << 1 + 2 * -3\n', 'x = -a if False else 1\n',
 	'f(a, k=1, *b, **c)\n', 'x = a.b[1:2].c(d)[::2]\n', 'x = [i for i in y if i]\n', 'x = {k: v for k, v in y}\n', 'x = lambda a, b: a + b\n',
 	'class A(B, C):\n\tdef __init__(self, x: int = 1) -> None:\n\t\tself.x = x\n\t\tself.y: int = 2\n\t@classmethod\n\tdef make(cls) -> "A":\n\t\treturn cls()\n\tdef get(self) -> int:\n\t\tdef inner() -> int:\n\t\t\treturn self.x\n\t\treturn inner()\n\tdef plain() -> None:\n\t\tpass\n',
